@@ -78,6 +78,7 @@ def check(rep: Report, ctx: Ctx) -> None:
     r521(rep, ctx)
     r523(rep, ctx)
     r524(rep, ctx)
+    r525(rep, ctx)
 
 
 # --------------------------------------------------------------------------
@@ -1732,3 +1733,13 @@ def r524(rep: Report, ctx: Ctx) -> None:
              "event is copied in front of every branch, the placeholder's "
              "branch gets the BREAK", 12)
     push_down(rep, ctx, "R5.24")
+
+
+def r525(rep: Report, ctx: Ctx) -> None:
+    """(= C01 R1.28)  The lonely merge and the kill flags decide where a
+    block is closed: a gate with two continuing paths and a lonely merge
+    leaves a branch dangling behind `endswitch` (seed C05-w)."""
+    from . import c01
+    rep.rule("R5.25", "model nodes: per-direction containers, kill flags and "
+             "the lonely merge of a gate (= C01 R1.28)", 21)
+    c01.node_tables(rep, ctx, "R5.25")
